@@ -218,18 +218,23 @@ for (st, pre), ops in CHAIN_CASES.items():
     for ok in ops:
         code = {'uci': 20, 'other': 30}.get(ok) or KGCODE[ok]
         what = 'push of any move of group ' + ok if code < 20 else ('push of any UCI value' if code == 20 else 'pop / set / clear / reset / automatic outcome')
-        # flags: bit 0 = followed by a pop, bit 1 = calculated outcome compared afterwards
-        variants = [('', 1)] if code < 30 else [('', 2)]
+        # flags: bit 1 = calculated outcome compared afterwards, bit 2 = repetition table compared
+        variants = [('', 0)] if code < 30 else [('', 2)]
         if code < 20 and ok in ('castling', 'ep', 'queen', 'knight', 'king'):
             variants.append(('_outcome', 2))
-            variants.append(('_rep', 5))
+            variants.append(('_rep', 4))
         for suffix, flags in variants:
-            reg('c13_chain_step_s%d_p%d_%s%s' % (st, pre, ok, suffix), 'C13', T, 3600, 12 if code == 30 else 28,
-                'chain state = stated start position %d after stated concrete prefix %d; one symbolic operation (%s)%s%s'
-                % (st, pre, what, ', then a pop' if flags & 1 else '', (', calculated outcome compared' if flags & 2 else '') + (', repetition table compared' if flags & 4 else '')),
+            reg('c13_chain_step_s%d_p%d_%s%s' % (st, pre, ok, suffix), 'C13', T, 3600, 12 if code == 30 else 16,
+                'chain state = stated start position %d after stated concrete prefix %d; one symbolic operation (%s)%s'
+                % (st, pre, what, (', calculated outcome compared' if flags & 2 else '') + (', repetition table compared' if flags & 4 else '')),
                 'c13::chain_step::<_, %d, %d, %d, %d>' % (st, pre, code, flags), 's13', 66,
                 bounds='pre-states from the stated finite sets START x PREFIX; BaseMoveChain<ArrRepeat>; two or more symbolic pushes are outside',
                 props=['C13', 'C14'])
+        if code < 20:
+            reg('c13_chain_push_pop_s%d_p%d_%s' % (st, pre, ok), 'C13', T, 3600, 14,
+                'chain state = stated start position %d after stated concrete prefix %d; push of any move of group %s, popped again if accepted' % (st, pre, ok),
+                'c13::chain_push_pop::<_, %d, %d, %d>' % (st, pre, code), 's13', 66,
+                bounds='pre-states from the stated finite sets START x PREFIX; BaseMoveChain<ArrRepeat>', props=['C13', 'C04'])
 for st, gk in [(0, 'pawn'), (0, 'king'), (0, 'castling'), (1, 'pspecial'), (4, 'king'), (5, 'knight')]:
     reg('c13_chain_eq_s%d_%s' % (st, gk), 'C13', T, 3600, 28, 'two chains (same start / other clocks / no castling rights / another start), one symbolic push of group %s and outcome each' % gk,
         'c13::chain_eq::<_, %d, %d>' % (st, KGCODE[gk]), 's13', 66)
@@ -282,8 +287,8 @@ QUICK = {
     'C11': ['c11_validate_exact_w', 'c11_validate_exact_b'],
     'C12': ['c12_coord_parse', 'c12_coord_roundtrip', 'c12_color_parse', 'c12_cell_parse', 'c12_castling_parse', 'c12_castling_roundtrip',
             'c12_san_parse_total_5', 'c10_uci_parse_exact', 'c12_fen_board_end_5'],
-    'C13': ['c13_chain_step_s0_p0_castling', 'c13_chain_step_s0_p0_ep', 'c13_chain_step_s0_p0_pspecial', 'c13_chain_step_s1_p1_king', 'c13_chain_step_s0_p2_other',
-            'c13_chain_step_s5_p4_other', 'c13_chain_step_s3_p0_queen', 'c13_chain_eq_s0_pawn', 'c13_chain_eq_s0_king'],
+    'C13': ['c13_chain_step_s0_p0_castling', 'c13_chain_push_pop_s0_p0_castling', 'c13_chain_push_pop_s1_p0_ep', 'c13_chain_step_s0_p2_other',
+            'c13_chain_step_s5_p4_other', 'c13_chain_eq_s0_pawn'],
     'C14': ['c14_outcome_filter_table', 'c14_chain_outcome_precedence', 'c07_outcome_classification_w', 'c07_outcome_lone_king_b', 'c13_chain_step_s5_p4_other', 'c13_chain_step_s5_p4_knight_outcome',
             'c13_chain_step_s3_p0_queen_outcome'],
     'C15': ['c15_leapers_exact', 'c15_between_exact', 'c15_bishop_exact'],
@@ -320,7 +325,7 @@ THOROUGH = {
     'C10': ['c10_*'],
     'C11': ['c11_*'],
     'C12': ['c12_*', 'c10_uci_parse_exact', 'c10_uci_text_roundtrip'],
-    'C13': ['c13_chain_step_*', 'c13_chain_eq_*'],
+    'C13': ['c13_chain_step_*', 'c13_chain_push_pop_*', 'c13_chain_eq_*'],
     'C14': ['c14_*', 'c07_outcome_classification_?', 'c07_outcome_lone_king_?', 'c13_chain_step_s5_*', 'c13_chain_step_s3_p0_*', 'c13_chain_step_s2_p0_rook', 'c13_chain_step_s4_p0_king'],
     'C15': ['c15_*'],
     'C16': ['c16_*'],
